@@ -620,8 +620,10 @@ EXPECT_EQUIV = {"pk_ok": "60", "query": "60", "gss_response": "60"}
 def agrees(expect, got):
     if expect == "?":
         return None
-    e = "+".join(EXPECT_EQUIV.get(x, x) for x in expect.split("+"))
-    return e == got
+    parts = [EXPECT_EQUIV.get(x, x) for x in expect.split("+") if x != "none"]
+    if "?" in parts:
+        return None
+    return ("+".join(parts) or "none") == got
 
 
 def spread_pin():
